@@ -432,6 +432,47 @@ def regex_from_source():
 # 3. kernels
 # ------------------------------------------------------------------------------------------------
 CELLS = [1, 1, 2, 3, 5, 10, 0.5, 0.25, 1.5, 2.5, 0.1, 0.3, 7.25, 30, 0.3048, 100]
+# cell sizes that binary floating point cannot hold exactly: radius / cellsize is then decided by rounding
+INEXACT_CELLS = [0.1, 0.2, 0.3, 0.6, 0.7, 0.05, 0.15, 1.1, 2.2, 0.3048, 2.54, 1 / 3, 0.9, 1e-3, 12.7, 33.3, 1609.344]
+
+
+def decimal_str(q):
+    """a positive Fraction whose denominator divides a power of ten, as a plain decimal literal (else None)"""
+    for digits in range(0, 31):
+        if (10 ** digits) % q.denominator == 0:
+            n = q.numerator * (10 ** digits // q.denominator)
+            t = str(n).rjust(digits + 1, "0")
+            return t[:len(t) - digits] + ("." + t[len(t) - digits:] if digits else "")
+    return None
+
+
+def whole_cells_radius(rng, cx, cy, big):
+    """a radius that is a whole number n of cells (or one ulp beside it) along one axis, written the ways a
+    caller writes it: the float product n * cellsize, the decimal product as a literal, n feet on a
+    one-foot cell ...; whether int(radius / cellsize) is n or n - 1 is decided by the float quotient"""
+    c_ = rng.choice([cx, cy])
+    n = rng.randrange(1, max(1, min(big, int(big * min(cx, cy) / c_))) + 1)
+    how = rng.choice(["product", "product", "decimal", "decimal", "ulp-below", "ulp-above", "unit"])
+    if how == "product":
+        v = n * c_
+    elif how == "ulp-below":
+        v = math.nextafter(n * c_, 0.0)
+    elif how == "ulp-above":
+        v = math.nextafter(n * c_, math.inf)
+    else:
+        dec = decimal_str(Fraction(repr(c_)) * n) if plain_decimal(repr(c_)) else None
+        if how == "unit" and dec is not None:
+            for u, f in (("ft", Fraction(3048, 10000)), ("km", Fraction(1000)), ("miles", Fraction(1609344, 1000))):
+                lit = decimal_str(Fraction(repr(c_)) * n / f)
+                if lit is not None and len(lit) < 18:
+                    return lit + rng.choice(["", " "]) + u
+        if dec is None:
+            v = n * c_
+        else:
+            return dec if rng.random() < 0.5 else float(dec)
+    if isinstance(v, float) and not plain_decimal(repr(v)):
+        v = n * c_
+    return v if rng.random() < 0.7 else repr(v)
 RAD_UNITS = ["", "m", " meters", "km", "ft", " feet", "miles", " ml", " Km", "foot"]
 
 
@@ -439,6 +480,8 @@ def gen_radius(rng, cx, cy, big=24):
     """a radius (number or string) giving half widths <= big"""
     k = rng.random()
     lim = big * min(abs(cx), abs(cy))
+    if k < 0.15 and cx > 0 and cy > 0:
+        return whole_cells_radius(rng, cx, cy, big)
     if k < 0.35:
         v = rng.randrange(0, max(2, int(lim) + 1))
         return v if rng.random() < 0.8 else str(v)
@@ -460,6 +503,9 @@ def gen_radius(rng, cx, cy, big=24):
 
 def gen_kernel_case(rng, kind):
     cx, cy = rng.choice(CELLS), rng.choice(CELLS)
+    if rng.random() < 0.3:
+        cx = rng.choice(INEXACT_CELLS)
+        cy = rng.choice(INEXACT_CELLS + [cx * 2, cx * 3, 1])
     if rng.random() < 0.4:
         cy = cx
     sub = "valid"
@@ -577,23 +623,45 @@ def radius_metres(rad):
     return "unknown"
 
 
-def half_widths(rad_m, cx, cy):
-    """floor(radius / cellsize) on the exact values of the floats; also says whether the float
-    quotient sits so close to an integer that its rounding decides the floor"""
-    out, boundary = [], False
-    for cs in (cx, cy):
-        q = rad_m / Fraction(cs)
-        h = math.floor(q)
-        if abs(q - round(q)) < Fraction(1, 10 ** 9) * max(1, abs(q)) and q != round(q):
-            boundary = True
-        fq = float(rad_m) / cs
-        if int(fq) != h:
-            boundary = True
-        out.append(h)
-    return out, boundary
+def fdiv(a, b):
+    """the IEEE binary64 quotient of two python numbers, computed from their exact values (the correctly
+    rounded `int / int` of CPython) -- what the expression `radius / cellsize` denotes"""
+    q = Fraction(a) / Fraction(b)
+    return q.numerator / q.denominator
 
 
-def oracle_kernel(c):
+def radius_floats(rad):
+    """the float(s) a well-formed positive radius stands for in metres.  A number, or a literal without unit /
+    in metres, is one float: float(literal).  With another unit the statement says "converts to metres" and
+    nothing about how the product is rounded: the correctly rounded product and the float product
+    float(literal) * float(factor) are both accepted (they differ by an ulp at most)."""
+    if isinstance(rad, (int, float)):
+        return {float(rad)}
+    m = re.fullmatch(r"(\d+\.\d+|\d+|\.\d+)([^0-9.]*)", rad)
+    lit, unit = m.groups()
+    u = unit.replace(" ", "").lower()
+    f = DOC_UNITS[u] if u else Fraction(1)
+    if f == 1:
+        return {float(lit)}
+    prod = Fraction(lit) * f
+    return {prod.numerator / prod.denominator, float(lit) * (f.numerator / f.denominator)}
+
+
+def half_widths(rad, cx, cy):
+    """the stated half widths: int(radius / cellsize_x), int(radius / cellsize_y) -- the floor of the float
+    quotient of the radius in metres by the cell size (the set has one element unless the unit conversion
+    itself is ambiguous in the last bit *and* the quotient sits on an integer)"""
+    return {(int(fdiv(rf, cx)), int(fdiv(rf, cy))) for rf in radius_floats(rad)}
+
+
+def exact_floor_note(rad, cx, cy, hw, hh):
+    """for the evidence: does the float quotient round up to an integer that the quotient of the real numbers
+    the two floats denote does not reach?  (1 / 0.1: the float quotient is 10.0, the real one 9.99999999999999944...)"""
+    return all((math.floor(Fraction(rf) / Fraction(cx)), math.floor(Fraction(rf) / Fraction(cy))) != (hw, hh)
+               for rf in radius_floats(rad))
+
+
+def oracle_kernel(c, note=None):
     st, k = call_kernel(c)
     if c["kind"] == "ellipse":
         hw, hh = c["hw"], c["hh"]
@@ -609,15 +677,19 @@ def oracle_kernel(c):
         rm = radius_metres(c["r"])
         if rm == "unknown":
             return None
+        what = f"circle_kernel({cx},{cy},{c['r']!r})"
         if rm is None:
-            return None if st != "ok" else f"circle_kernel({cx},{cy},{c['r']!r}) accepted a non-positive / malformed radius"
+            return None if st != "ok" else f"{what} accepted a non-positive / malformed radius"
         if st != "ok":
-            return f"circle_kernel({cx},{cy},{c['r']!r}) raised {st}: {str(k)[:80]}"
-        (hw, hh), boundary = half_widths(rm, cx, cy)
-        if boundary:
-            return check_mask(k, (k.shape[1] - 1) // 2, (k.shape[0] - 1) // 2, f"circle_kernel({cx},{cy},{c['r']!r})",
-                              shape_only=(hw, hh))
-        return check_mask(k, hw, hh, f"circle_kernel({cx},{cy},{c['r']!r})")
+            return f"{what} raised {st}: {str(k)[:80]}"
+        if not isinstance(k, np.ndarray) or k.ndim != 2:
+            return f"{what}: not a 2-D array"
+        stated = half_widths(c["r"], cx, cy)
+        got = ((k.shape[1] - 1) // 2, (k.shape[0] - 1) // 2)
+        hw, hh = got if got in stated else sorted(stated)[0]
+        if note is not None and exact_floor_note(c["r"], cx, cy, hw, hh):
+            note("kernel:float-quotient-reaches-next-integer")
+        return check_mask(k, hw, hh, what, quot=(c["r"], cx, cy))
     ro, ri = radius_metres(c["ro"]), radius_metres(c["ri"])
     if ro == "unknown" or ri == "unknown":
         return None
@@ -628,30 +700,34 @@ def oracle_kernel(c):
         return None       # inner radius beyond the outer one: not an annulus
     if st != "ok":
         return f"{what} raised {st}: {str(k)[:80]}"
-    (HW, HH), b1 = half_widths(ro, cx, cy)
-    (hw, hh), b2 = half_widths(ri, cx, cy)
-    if b1 or b2:
-        HW, HH = (k.shape[1] - 1) // 2, (k.shape[0] - 1) // 2
-        if k.shape != (2 * HH + 1, 2 * HW + 1):
-            return f"{what}: even shape {k.shape}"
-        if (k < 0).any():
-            return f"{what}: negative entry {k.min()}"
-        return None
+    if not isinstance(k, np.ndarray) or k.ndim != 2:
+        return f"{what}: not a 2-D array"
+    outer_hw, inner_hw = half_widths(c["ro"], cx, cy), half_widths(c["ri"], cx, cy)
+    got = ((k.shape[1] - 1) // 2, (k.shape[0] - 1) // 2)
+    HW, HH = got if got in outer_hw else sorted(outer_hw)[0]
     if k.shape != (2 * HH + 1, 2 * HW + 1):
-        return f"{what}: shape {k.shape}, expected {(2 * HH + 1, 2 * HW + 1)}"
-    outer = ellipse_mask(HW, HH)
-    inner = np.zeros_like(outer)
-    inner[HH - hh:HH + hh + 1, HW - hw:HW + hw + 1] = ellipse_mask(hw, hh)
+        return (f"{what}: shape {k.shape}, expected {(2 * HH + 1, 2 * HW + 1)} (outer half widths int({c['ro']!r} / {cx}) = {HW}, "
+                f"int({c['ro']!r} / {cy}) = {HH})")
     if (k < 0).any():
         idx = tuple(int(t) for t in np.argwhere(k < 0)[0])
         return f"{what}: negative entry {k[idx]} at {idx}"
-    if not np.array_equal(k, outer - inner):
-        idx = tuple(int(t) for t in np.argwhere(k != outer - inner)[0])
-        return f"{what}: entry {idx} is {k[idx]}, outer - centred inner gives {(outer - inner)[idx]}"
-    return None
+    outer = ellipse_mask(HW, HH)
+    bad = None
+    for hw, hh in sorted(inner_hw):
+        if hw > HW or hh > HH:
+            continue
+        inner = np.zeros_like(outer)
+        inner[HH - hh:HH + hh + 1, HW - hw:HW + hw + 1] = ellipse_mask(hw, hh)
+        if np.array_equal(k, outer - inner):
+            return None
+        if bad is None:
+            idx = tuple(int(t) for t in np.argwhere(k != outer - inner)[0])
+            bad = (f"{what}: entry {idx} is {k[idx]}, outer (half widths {HW}, {HH}) - centred inner (half widths {hw}, {hh}) "
+                   f"gives {(outer - inner)[idx]}")
+    return bad
 
 
-def check_mask(k, hw, hh, what, shape_only=None):
+def check_mask(k, hw, hh, what, quot=None):
     if not isinstance(k, np.ndarray) or k.ndim != 2:
         return f"{what}: not a 2-D array"
     if k.shape[0] % 2 != 1 or k.shape[1] % 2 != 1:
@@ -660,12 +736,13 @@ def check_mask(k, hw, hh, what, shape_only=None):
         return f"{what}: entries other than 0/1"
     if not (np.array_equal(k, k[::-1, :]) and np.array_equal(k, k[:, ::-1])):
         return f"{what}: not symmetric under the axis flips"
-    if shape_only is not None:
-        ehw, ehh = shape_only
-        if abs((k.shape[1] - 1) // 2 - ehw) > 1 or abs((k.shape[0] - 1) // 2 - ehh) > 1:
-            return f"{what}: shape {k.shape}, half widths should be about {(ehw, ehh)}"
-    elif k.shape != (2 * hh + 1, 2 * hw + 1):
-        return f"{what}: shape {k.shape}, expected {(2 * hh + 1, 2 * hw + 1)} (half widths {hw}, {hh})"
+    if k.shape != (2 * hh + 1, 2 * hw + 1):
+        why = f"half widths {hw}, {hh}"
+        if quot is not None:
+            rad, cx, cy = quot
+            rf = sorted(radius_floats(rad))[0]
+            why = f"half widths int({rf!r} / {cx!r}) = int({fdiv(rf, cx)!r}) = {hw}, int({rf!r} / {cy!r}) = int({fdiv(rf, cy)!r}) = {hh}"
+        return f"{what}: shape {k.shape}, expected {(2 * hh + 1, 2 * hw + 1)} ({why})"
     exp = ellipse_mask(hw, hh)
     if not np.array_equal(k, exp):
         idx = tuple(int(t) for t in np.argwhere(k != exp)[0])
@@ -922,7 +999,7 @@ def run(r, scale=1, oracle_only=False):
             tags.append(f"metric:{c['metric']}")
         r.case(c, desc=c if idx % 97 == 0 else None, nontrivial=not trivial, tags=tags)
         try:
-            bad = ORACLES[kind](c)
+            bad = oracle_kernel(c, note=r.tag) if kind == "circle" else ORACLES[kind](c)
         except Exception as ex:          # an oracle crash must not hide a problem
             bad = None
             r.notes.append(f"oracle crashed on {c}: {ex!r}")
